@@ -205,6 +205,61 @@ impl<VS: VersionSet> AsRef<Self> for Term<VS> {
     }
 }
 
+// VERIFICATION HOOKS ##########################################################
+
+/// Public wrappers around the crate-private term operations, compiled only with
+/// `--cfg pubgrub_verif` (used by the external verification harness; read-only).
+#[cfg(pubgrub_verif)]
+pub mod verif {
+    use super::{Relation, Term};
+    use crate::VersionSet;
+
+    /// [Term::any]
+    pub fn any<VS: VersionSet>() -> Term<VS> {
+        Term::any()
+    }
+    /// [Term::empty]
+    pub fn empty<VS: VersionSet>() -> Term<VS> {
+        Term::empty()
+    }
+    /// [Term::exact]
+    pub fn exact<VS: VersionSet>(v: VS::V) -> Term<VS> {
+        Term::exact(v)
+    }
+    /// [Term::negate]
+    pub fn negate<VS: VersionSet>(t: &Term<VS>) -> Term<VS> {
+        t.negate()
+    }
+    /// [Term::contains]
+    pub fn contains<VS: VersionSet>(t: &Term<VS>, v: &VS::V) -> bool {
+        t.contains(v)
+    }
+    /// [Term::intersection]
+    pub fn intersection<VS: VersionSet>(t: &Term<VS>, u: &Term<VS>) -> Term<VS> {
+        t.intersection(u)
+    }
+    /// [Term::union]
+    pub fn union<VS: VersionSet>(t: &Term<VS>, u: &Term<VS>) -> Term<VS> {
+        t.union(u)
+    }
+    /// [Term::is_disjoint]
+    pub fn is_disjoint<VS: VersionSet>(t: &Term<VS>, u: &Term<VS>) -> bool {
+        t.is_disjoint(u)
+    }
+    /// [Term::subset_of]
+    pub fn subset_of<VS: VersionSet>(t: &Term<VS>, u: &Term<VS>) -> bool {
+        t.subset_of(u)
+    }
+    /// [Term::relation_with]: 0 = satisfied, 1 = contradicted, 2 = inconclusive
+    pub fn relation_with<VS: VersionSet>(t: &Term<VS>, other: &Term<VS>) -> u8 {
+        match t.relation_with(other) {
+            Relation::Satisfied => 0,
+            Relation::Contradicted => 1,
+            Relation::Inconclusive => 2,
+        }
+    }
+}
+
 // REPORT ######################################################################
 
 impl<VS: VersionSet + Display> Display for Term<VS> {
